@@ -1,6 +1,7 @@
-(* C10  I-vectors are posterior means; covariance floor.  (EM monotonicity: see DESIGN.md - partial.) *)
+(* C10  I-vectors are posterior means; covariance floor; EM monotonicity for a rank-1 subspace with fixed covariances
+   (rank > 1 and covariance updating: numerical evidence only, see DESIGN.md - partial). *)
 From Coq Require Import Reals List.
-From BLE Require Import Num.InstR Model.IVector Proofs.RLemmas Proofs.IVectorR.
+From BLE Require Import Num.InstR Model.IVector Proofs.RLemmas Proofs.IVectorR Proofs.JFARank1 Proofs.IVRank1.
 Import ListNotations IR.
 Open Scope R_scope.
 
@@ -38,3 +39,24 @@ Theorem C10_covariances_untouched_without_update inv (D t : nat) (floor : R) (m 
   iv_sigma (m_step inv D t false floor m st) = iv_sigma m.
 Proof. exact (sigma_unchanged inv D t floor m st). Qed.
 Print Assumptions C10_covariances_untouched_without_update.
+
+(* EM for a rank-1 total-variability subspace (t = 1), covariances held fixed (update_sigma = False): the code's iteration is
+   the exact EM step on the column T and never decreases the marginal likelihood of the training statistics
+   sum_s [ b_s^2 / (2 L_s) - 1/2 ln L_s ]  (the scalar i-vector of every utterance integrated out); means and covariances
+   are left alone.  Any numbers of components, features and utterances; fractional and zero counts allowed. *)
+Theorem C10_rank1_iteration_is_the_em_step (inv : list (list R) -> list (list R)) (C D : nat) (floor : R) (m : ivm) (X : list gstat) :
+  inv1_ok inv -> ivm_ok C D 1 m -> Forall (IVectorR.gstat_ok C D) X ->
+  Forall (fun w2 => nth 0 (nth 0 w2 []) 0 <> 0) (a_w2 (e_step inv C D 1 m X)) ->
+  let m' := m_step inv D 1 false floor m (e_step inv C D 1 m X) in
+  iv_mu m' = iv_mu m /\ iv_sigma m' = iv_sigma m
+  /\ tcol (iv_T m') = em_v_step (tcol (iv_T m)) (concat (iv_sigma m)) (map (utt_NG D m) X).
+Proof. exact (iv_em_rank1 inv C D floor m X). Qed.
+Print Assumptions C10_rank1_iteration_is_the_em_step.
+
+Theorem C10_rank1_training_iteration_monotone (inv : list (list R) -> list (list R)) (C D : nat) (floor : R) (m m' : ivm) (X : list gstat) :
+  inv1_ok inv -> ivm_ok C D 1 m -> Forall (IVectorR.gstat_ok C D) X ->
+  Forall (fun w2 => 0 < nth 0 (nth 0 w2 []) 0) (a_w2 (e_step inv C D 1 m X)) ->
+  em_iter inv C D 1 false floor [X] m = Some m' ->
+  iv_marginal D m (iv_T m) X <= iv_marginal D m (iv_T m') X.
+Proof. exact (iv_em_iter_monotone_rank1 inv C D floor m m' X). Qed.
+Print Assumptions C10_rank1_training_iteration_monotone.
